@@ -30,6 +30,7 @@ import (
 	"github.com/tsawler/tabula/rag"
 
 	"verifharness/fw"
+	"verifharness/gen/htmlw"
 	"verifharness/gen/logical"
 	"verifharness/gen/odf"
 	"verifharness/gen/ooxml"
@@ -246,6 +247,69 @@ func (pptxBackend) Markdown(c *fw.Ctx, id string, d *logical.Doc, r *rand.Rand, 
 	return md, err
 }
 
+// htmlBackend: the document written as an HTML page, rendered through
+// tabula.FromHTMLString(...).ToMarkdownWithOptions or tabula.Open(x.html).
+type htmlBackend struct{}
+
+func (htmlBackend) Name() string { return "html" }
+func (htmlBackend) Profile(r *rand.Rand) logical.Profile {
+	return logical.Profile{MinBlocks: 2, MaxBlocks: 8, Tab: true, Break: true, Sym: true, HeadingHows: []string{"h"}, MaxHeadingLevel: 6,
+		Lists: true, ListMaxDepth: 3, Tables: true, MaxRows: 5, MaxCols: 5, Spans: true, MultiPara: true, EmptyCells: true, CellSpecials: true, HeaderRows: true,
+		Pipes: true, Backslash: true, XMLChars: true, Title: true, Wraps: []string{"link"},
+		BlockBias: []string{"", "tables", "tables", "lists", "headings"}[r.Intn(5)]}
+}
+
+// Normalize: HTML has no cell elements for covered positions, so a grid row that
+// is covered completely from above would be an empty <tr> — a row no reader can
+// tell from formatting noise. Tables with such a row are written without spans.
+func (htmlBackend) Normalize(d *logical.Doc) {
+	for bi := range d.Blocks {
+		t := d.Blocks[bi].Table
+		if d.Blocks[bi].Kind != logical.BTable || t == nil {
+			continue
+		}
+		full := false
+		for r := range t.Cells {
+			n := 0
+			for _, c := range t.Cells[r] {
+				if c != nil {
+					n++
+				}
+			}
+			full = full || n == 0
+		}
+		if !full {
+			continue
+		}
+		for r := range t.Cells {
+			for c := range t.Cells[r] {
+				if t.Cells[r][c] == nil {
+					t.Cells[r][c] = &logical.Cell{Paras: []logical.Para{{}}, RowSpan: 1, ColSpan: 1}
+				} else {
+					t.Cells[r][c].RowSpan, t.Cells[r][c].ColSpan = 1, 1
+				}
+			}
+		}
+	}
+}
+func (htmlBackend) Expect(o *MDOpts)                        {}
+func (htmlBackend) UsesOptions() bool                       { return true }
+func (htmlBackend) Triggers(d *logical.Doc) map[string]bool { return nil }
+func (htmlBackend) Markdown(c *fw.Ctx, id string, d *logical.Doc, r *rand.Rand, neutral map[string]bool, o rag.MarkdownOptions) (string, error) {
+	data := htmlw.FromLogical(d)
+	if r.Intn(2) == 0 {
+		md, _, err := tabula.FromHTMLString(string(data)).ToMarkdownWithOptions(o)
+		return md, err
+	}
+	path := filepath.Join(c.Work, strings.NewReplacer(":", "_", "#", "_", "/", "_").Replace(id)+".html")
+	if err := os.WriteFile(path, data, 0o644); err != nil {
+		return "", err
+	}
+	defer os.Remove(path)
+	md, _, err := tabula.Open(path).ToMarkdownWithOptions(o)
+	return md, err
+}
+
 // ragBackend: model.Document -> rag.DocumentChunker -> ChunkCollection.ToMarkdownWithOptions.
 type ragBackend struct{}
 
@@ -324,6 +388,7 @@ func Backends() []Backend {
 		tableBackend{},
 		ragBackend{},
 		pptxBackend{},
+		htmlBackend{},
 	}
 }
 
@@ -459,6 +524,9 @@ func Run(c *fw.Ctx) {
 		r := c.Rand("doc", i)
 		tk := fw.NewTokens(c.Rand("doc", i, "tokens"))
 		d := logical.Gen(r, tk, b.Profile(c.Rand("doc", i, "profile")))
+		if nb, ok := b.(interface{ Normalize(*logical.Doc) }); ok {
+			nb.Normalize(d)
+		}
 		or := c.Rand("doc", i, "options")
 		nt := nontrivial(d)
 		for _, f := range d.FeatureList() {
